@@ -263,6 +263,28 @@ Definition sec_step_live (c : cfg) (bcb : bool) (secs : list secblk) (st : cstat
 Definition recv_sec_live (c : cfg) (secs : list secblk) (data : datamap) : result :=
   chain (fun bcb => sec_step_live c bcb secs) (mkCS true None (view_of secs data)).
 
+(** * Where a per-target verdict comes from: the detached-payload rule
+
+    [CoseSecOpCtx.decode_msg] ALWAYS overwrites the payload / ciphertext slot of the received COSE
+    structure with the target block's CURRENT block-type-specific data before the message is verified or
+    decrypted ("replace detached payload"); whatever a sender put into that slot is ignored.
+    [m_auth] stands for everything else in the result (headers, tag / signature, recipients), [open] for the
+    cryptographic check with the receiver's keys and the external AAD: [Some p] = verifies, [p] the plaintext
+    (for a BIB the data itself); its meaning is C03 / C16. *)
+Record cose_msg := mkMsg { m_auth : N; m_slot : option N }.
+
+Definition decode_msg (target_btsd : N) (m : cose_msg) : cose_msg := mkMsg (m_auth m) (Some target_btsd).
+
+Definition target_verdict (open : N -> N -> option N) (data : datamap) (t : N) (m : cose_msg) : tres :=
+  match m_slot (decode_msg (btsd_of t data) m) with
+  | Some payload =>
+    match open (m_auth (decode_msg (btsd_of t data) m)) payload with
+    | Some p => TOk p
+    | None => TFail FAILED_SEC
+    end
+  | None => TFail FAILED_SEC
+  end.
+
 (** * Rendering for the correspondence check (numbers, lists and pairs only) *)
 Definition ren_view (v : view) : datamap * secview := (v_data v, v_secs v).
 
